@@ -137,18 +137,30 @@ func genAnyDiff(r *lib.RNG, size int) DiffSpec {
 	}
 	small := []uint64{0, 1, 2, 3, 4, 5}
 	d.N = pair(uniAddrs, small, size)
-	d.D = pair(uniAddrs, classHashes, 1)
+	// round 6: up to two (three) entries per wire list, so that one key can occur twice in ONE wire diff
+	// (AdaptStateDiff assigns in wire order: the last entry wins — adapted_diff_reads_last_wire_entry;
+	// the cairo-0 list keeps duplicates)
+	d.D = pair(uniAddrs, classHashes, 2)
 	if r.Chance(1, 3) {
-		d.R = pair(uniAddrs, classHashes, 1)
+		d.R = pair(uniAddrs, classHashes, 2)
 	}
 	if r.Chance(1, 3) {
-		d.C1 = pair(uniCH, []uint64{400, 401, 402}, 1)
+		d.C1 = pair(uniCH, []uint64{400, 401, 402}, 2)
 	}
 	if r.Chance(1, 4) {
-		d.M = pair(uniCH, []uint64{500, 501}, 1)
+		d.M = pair(uniCH, []uint64{500, 501}, 2)
 	}
 	if r.Chance(1, 4) {
 		d.C0 = append(d.C0, lib.Pick(r, uniCH))
+		if r.Chance(1, 3) {
+			d.C0 = append(d.C0, lib.Pick(r, uniCH))
+		}
+	}
+	if r.Chance(1, 6) && len(d.D) > 0 { // the same contract deployed twice in one wire diff
+		d.D = append(d.D, [2]uint64{d.D[0][0], lib.Pick(r, classHashes)})
+	}
+	if r.Chance(1, 6) && len(d.C1) > 0 {
+		d.C1 = append(d.C1, [2]uint64{d.C1[0][0], 403})
 	}
 	return d
 }
